@@ -305,3 +305,5 @@ def run(ctx):
     boundaries.check_writes(ctx, 'C07.RW', 'C07')
     boundaries.check_calls(ctx, 'C07.RC', 'C07')
     boundaries.check_guards(ctx, 'C07.RG', 'C07')
+    from .. import boundaries as _b
+    _b.check_predicates(ctx, 'C07.RP', 'C07')
